@@ -287,37 +287,42 @@ func c12RunArgs(a c12Args, root []Action, alpha []Action, w *Worker, res *UnitRe
 }
 
 func c12BytesFacet(a c12Args, w *Worker, res *UnitResult) {
-	values := []string{"x\r\ny", "\x00", "", "a\nb", "\r", "nul\x00mid", "+OK", "$-1", "*2"}
+	values := []string{"x\r\ny", "\x00", "", "a\nb", "\r", "nul\x00mid", "+OK", "$-1", "*2", "caf\xc3\xa9 \xff\xfe bin\x80ary"}
 	type probe struct {
-		setup  []Action
-		reader []string
-		want   string // must appear among the decoded strings of the reply
+		setup     []Action
+		reader    []string
+		want      string // must appear among the decoded strings of the reply
+		frameOnly bool   // only the framing is judged (the selected bytes are not specified)
 	}
 	for _, v := range values {
 		probes := []probe{
-			{[]Action{cmd("SET", "k", v)}, []string{"GET", "k"}, v},
-			{[]Action{cmd("SET", "k", v)}, []string{"MGET", "k"}, v},
-			{[]Action{cmd("SET", "k", v)}, []string{"GETRANGE", "k", "0", "-1"}, v},
-			{[]Action{cmd("SET", "k", v)}, []string{"GETDEL", "k"}, v},
-			{[]Action{cmd("SET", "k", v)}, []string{"GETEX", "k"}, v},
-			{[]Action{cmd("SET", "k", "old")}, []string{"SET", "k", "new", "GET"}, "old"},
-			{[]Action{cmd("SET", "k", v)}, []string{"SET", "k", "new", "GET"}, v},
-			{[]Action{cmd("HSET", "h", "f", v)}, []string{"HGET", "h", "f"}, v},
-			{[]Action{cmd("HSET", "h", "f", v)}, []string{"HGETALL", "h"}, v},
-			{[]Action{cmd("HSET", "h", "f", v)}, []string{"HVALS", "h"}, v},
-			{[]Action{cmd("HSET", "h", v, "x")}, []string{"HKEYS", "h"}, v},
-			{[]Action{cmd("RPUSH", "l", v)}, []string{"LRANGE", "l", "0", "-1"}, v},
-			{[]Action{cmd("RPUSH", "l", v)}, []string{"LINDEX", "l", "0"}, v},
-			{[]Action{cmd("RPUSH", "l", v)}, []string{"LPOP", "l"}, v},
-			{[]Action{cmd("RPUSH", "l", v, "z")}, []string{"RPOP", "l", "2"}, v},
-			{[]Action{cmd("SADD", "s", v)}, []string{"SMEMBERS", "s"}, v},
-			{[]Action{cmd("SADD", "s", v)}, []string{"SPOP", "s"}, v},
-			{[]Action{cmd("SADD", "s", v)}, []string{"SRANDMEMBER", "s"}, v},
-			{[]Action{cmd("ZADD", "z", "1", v)}, []string{"ZRANGE", "z", "-inf", "+inf", "BYSCORE"}, v},
-			{[]Action{cmd("ZADD", "z", "1", v)}, []string{"ZPOPMIN", "z"}, v},
-			{[]Action{cmd("SET", v, "x")}, []string{"RANDOMKEY"}, v},
-			{nil, []string{"ECHO", v}, v},
-			{nil, []string{"PING", v}, v},
+			{[]Action{cmd("SET", "k", v)}, []string{"GET", "k"}, v, false},
+			{[]Action{cmd("SET", "k", v)}, []string{"MGET", "k"}, v, false},
+			{[]Action{cmd("SET", "k", v)}, []string{"GETRANGE", "k", "0", "-1"}, v, false},
+			{[]Action{cmd("SET", "k", v)}, []string{"GETRANGE", "k", "8", "2"}, "", true},
+			{[]Action{cmd("SET", "k", v)}, []string{"GETRANGE", "k", "-1", "0"}, "", true},
+			{[]Action{cmd("SET", "k", v)}, []string{"SUBSTR", "k", "5", "1"}, "", true},
+			{[]Action{cmd("SET", "k", v)}, []string{"GETRANGE", "k", "2", "6"}, "", true},
+			{[]Action{cmd("SET", "k", v)}, []string{"GETDEL", "k"}, v, false},
+			{[]Action{cmd("SET", "k", v)}, []string{"GETEX", "k"}, v, false},
+			{[]Action{cmd("SET", "k", "old")}, []string{"SET", "k", "new", "GET"}, "old", false},
+			{[]Action{cmd("SET", "k", v)}, []string{"SET", "k", "new", "GET"}, v, false},
+			{[]Action{cmd("HSET", "h", "f", v)}, []string{"HGET", "h", "f"}, v, false},
+			{[]Action{cmd("HSET", "h", "f", v)}, []string{"HGETALL", "h"}, v, false},
+			{[]Action{cmd("HSET", "h", "f", v)}, []string{"HVALS", "h"}, v, false},
+			{[]Action{cmd("HSET", "h", v, "x")}, []string{"HKEYS", "h"}, v, false},
+			{[]Action{cmd("RPUSH", "l", v)}, []string{"LRANGE", "l", "0", "-1"}, v, false},
+			{[]Action{cmd("RPUSH", "l", v)}, []string{"LINDEX", "l", "0"}, v, false},
+			{[]Action{cmd("RPUSH", "l", v)}, []string{"LPOP", "l"}, v, false},
+			{[]Action{cmd("RPUSH", "l", v, "z")}, []string{"RPOP", "l", "2"}, v, false},
+			{[]Action{cmd("SADD", "s", v)}, []string{"SMEMBERS", "s"}, v, false},
+			{[]Action{cmd("SADD", "s", v)}, []string{"SPOP", "s"}, v, false},
+			{[]Action{cmd("SADD", "s", v)}, []string{"SRANDMEMBER", "s"}, v, false},
+			{[]Action{cmd("ZADD", "z", "1", v)}, []string{"ZRANGE", "z", "-inf", "+inf", "BYSCORE"}, v, false},
+			{[]Action{cmd("ZADD", "z", "1", v)}, []string{"ZPOPMIN", "z"}, v, false},
+			{[]Action{cmd("SET", v, "x")}, []string{"RANDOMKEY"}, v, false},
+			{nil, []string{"ECHO", v}, v, false},
+			{nil, []string{"PING", v}, v, false},
 		}
 		for _, p := range probes {
 			if v == "" && (p.reader[0] == "RANDOMKEY" || p.reader[0] == "PING") {
@@ -365,7 +370,7 @@ func c12BytesFacet(a c12Args, w *Worker, res *UnitResult) {
 					}
 				}
 				walk(out.V)
-				if !found {
+				if !found && !p.frameOnly {
 					mk("bytes-altered", fmt.Sprintf("the decoded reply %s does not contain the stored bytes %q", out.V, p.want))
 				}
 				res.Outcomes = append(res.Outcomes, hashJSON(out.V.String()))
